@@ -208,11 +208,15 @@ theorem advance_ascii {z : Z} {b : UInt8} {t : Bytes} (hz : z.after = b :: t) (h
   unfold advance
   simp [hz, decodeRune, hb, Z.bump]
 
-/-- `skipSpaces` consumes blanks only. -/
+theorem isBlank_lt {b : UInt8} (h : isBlank b = true) : b < 0x80 := by
+  simp only [isBlank, Bool.or_eq_true, beq_iff_eq] at h
+  rcases h with rfl | rfl <;> decide
+
+/-- `skipSpaces` consumes blanks and tabs only. -/
 theorem advWhileF_spaces (n : Nat) (z : Z) :
-    ∃ sp, (∀ c ∈ sp, c = 0x20) ∧ z.after = sp ++ (advWhileF (· == 0x20) n z).after ∧
-      (advWhileF (· == 0x20) n z).before = sp.reverse ++ z.before ∧
-      (advWhileF (· == 0x20) n z).line = z.line := by
+    ∃ sp, (∀ c ∈ sp, isBlank c = true) ∧ z.after = sp ++ (advWhileF isBlank n z).after ∧
+      (advWhileF isBlank n z).before = sp.reverse ++ z.before ∧
+      (advWhileF isBlank n z).line = z.line := by
   induction n generalizing z with
   | zero => exact ⟨[], by simp, by simp [advWhileF], by simp [advWhileF], rfl⟩
   | succ n ih =>
@@ -223,14 +227,12 @@ theorem advWhileF_spaces (n : Nat) (z : Z) :
     · rename_i b t hz
       split
       · rename_i hb
-        have hb' : b = 0x20 := by simpa using hb
-        subst hb'
-        rw [advance_ascii hz (by decide)]
-        obtain ⟨sp, h1, h2, h3, h4⟩ := ih ({ z with before := 0x20 :: z.before, after := t, col := z.col + 1 })
-        refine ⟨0x20 :: sp, ?_, ?_, ?_, h4⟩
+        rw [advance_ascii hz (isBlank_lt hb)]
+        obtain ⟨sp, h1, h2, h3, h4⟩ := ih ({ z with before := b :: z.before, after := t, col := z.col + 1 })
+        refine ⟨b :: sp, ?_, ?_, ?_, h4⟩
         · intro c hc
           rcases List.mem_cons.mp hc with rfl | hc
-          · rfl
+          · exact hb
           · exact h1 c hc
         · rw [hz]
           simp only [List.cons_append]
@@ -239,22 +241,22 @@ theorem advWhileF_spaces (n : Nat) (z : Z) :
       · exact ⟨[], by simp, by simp, by simp, rfl⟩
 
 theorem skipSpaces_spec (z : Z) :
-    ∃ sp, (∀ c ∈ sp, c = 0x20) ∧ z.after = sp ++ (skipSpaces z).after ∧
+    ∃ sp, (∀ c ∈ sp, isBlank c = true) ∧ z.after = sp ++ (skipSpaces z).after ∧
       (skipSpaces z).before = sp.reverse ++ z.before ∧ (skipSpaces z).line = z.line :=
   advWhileF_spaces _ z
 
 /-- What one call of `Next` does: it skips blanks `sp` and then either
-    * `tok`: returns a token that starts right behind the blanks and covers `pre`, which
+    * `tok`: returns a token that starts right behind the blanks/tabs and covers `pre`, which
       contains no line feed (the EOF token at the end of input is the case `pre = []`), or
     * `newline`: consumes exactly one line feed, returns the Newline token for it and moves
       to column 1 of the next line. -/
 inductive Step (z : Z) (r : Token × Z) : Prop
-  | tok (sp pre : Bytes) (hsp : ∀ c ∈ sp, c = 0x20) (hpre : LF ∉ pre)
+  | tok (sp pre : Bytes) (hsp : ∀ c ∈ sp, isBlank c = true) (hpre : LF ∉ pre)
       (hafter : z.after = sp ++ pre ++ r.2.after)
       (hbefore : r.2.before = pre.reverse ++ sp.reverse ++ z.before)
       (hline : r.2.line = z.line) (hty : r.1.ty ≠ .newline)
       (hpl : r.1.pos.line = z.line) (hpo : r.1.pos.off = z.before.length + sp.length) : Step z r
-  | newline (sp : Bytes) (hsp : ∀ c ∈ sp, c = 0x20)
+  | newline (sp : Bytes) (hsp : ∀ c ∈ sp, isBlank c = true)
       (hafter : z.after = sp ++ LF :: r.2.after)
       (hbefore : r.2.before = LF :: sp.reverse ++ z.before)
       (hline : r.2.line = z.line + 1) (hcol : r.2.col = 1) (hstart : r.2.atStart = true)
@@ -268,9 +270,9 @@ theorem Step.of_nl {z : Z} {r : Token × Z} (h : NL z r) : Step z r := by
     (by rw [h.pos]; rfl) (by rw [h.pos]; simp [Z.position])
 
 /-- prefix blanks skipped before the step proper -/
-theorem Step.skip {z0 z : Z} {r : Token × Z} (sp : Bytes) (hsp : ∀ c ∈ sp, c = 0x20)
+theorem Step.skip {z0 z : Z} {r : Token × Z} (sp : Bytes) (hsp : ∀ c ∈ sp, isBlank c = true)
     (ha : z0.after = sp ++ z.after) (hb : z.before = sp.reverse ++ z0.before) (hl : z.line = z0.line)
-    (h : Step z r) (hz : ∀ c t, z.after = c :: t → c ≠ 0x20) : Step z0 r := by
+    (h : Step z r) (hz : ∀ c t, z.after = c :: t → isBlank c ≠ true) : Step z0 r := by
   cases h with
   | tok sp' pre hsp' hpre hafter hbefore hline hty hpl hpo =>
     -- behind `skipSpaces` no further blanks are skipped
@@ -281,7 +283,7 @@ theorem Step.skip {z0 z : Z} {r : Token × Z} (sp : Bytes) (hsp : ∀ c ∈ sp, 
       · rw [hbefore, hb]; simp
       · rw [hpo, hb]; simp; omega
     | cons c t =>
-      have hc : c = 0x20 := hsp' c (by simp)
+      have hc : isBlank c = true := hsp' c (by simp)
       exact absurd hc (hz c (t ++ (pre ++ r.2.after)) (by rw [hafter]; simp))
   | newline sp' hsp' hafter hbefore hline hcol hstart hty hpl hpo hstop =>
     cases sp' with
@@ -291,7 +293,7 @@ theorem Step.skip {z0 z : Z} {r : Token × Z} (sp : Bytes) (hsp : ∀ c ∈ sp, 
       · rw [hbefore, hb]; simp
       · rw [hpo, hb]; simp; omega
     | cons d t =>
-      have hd : d = 0x20 := hsp' d (by simp)
+      have hd : isBlank d = true := hsp' d (by simp)
       exact absurd hd (hz d (t ++ LF :: r.2.after) (by rw [hafter]; simp))
 
 theorem punct_nl (ty : TokType) (v : Bytes) {z : Z} (hp : peek z ≠ LF) (hty : ty ≠ .newline) :
@@ -355,8 +357,8 @@ theorem scanInLine_step (C : Classes) (z0 : Z) : Step z0 (scanInLine C z0) := by
   obtain ⟨sp, h1, h2, h3, h4⟩ := skipSpaces_spec z0
   refine Step.skip sp h1 h2 h3 h4 (scanInLineAt_step C _) ?_
   intro c t hct
-  have := advWhile_stop (· == 0x20) z0 c t hct
-  simpa using this
+  have := advWhile_stop isBlank z0 c t hct
+  simp [this]
 
 theorem scanLineStart_step (C : Classes) (z0 : Z) : Step z0 (scanLineStart C z0) := by
   unfold scanLineStart
